@@ -2,18 +2,81 @@
    Only statements, `exact`, and Print Assumptions live here. *)
 From Coq Require Import NArith ZArith List Bool.
 Require Import Board Stack Rules Move Refine RefinePlace RefinePlace2 RefinePlace3 Slide1 Slide2 Slide3 Slide4 Slide5 Slide6 Slide7 HashInv.
+Require Import GameOver Alloc Generated.Consts.
+Require Import Preserve1 Preserve5 Preserve6 Reach1 HashMove1 Canon8 PreserveEx.
+Import ListNotations.
 
-(* The incremental hash: for ANY per-square hash function hf and any base value, if the running hash equals
-   base xor (XOR over all n squares of hash_at), then after  h ^= hashAt(i); <mutate Height/Stacks of square i
-   only>; h ^= hashAt(i)  it again equals base xor the XOR over the new contents.  This is the bracket at the
-   origin and at every drop square of MovePreallocated.
-   (C08_partial: plumbing this through the whole of move_prealloc, canonical representation
-   `same squares -> same bitboards/heights/stacks/hash`, and equal_sound are still to do - DESIGN 5.8;
-   the clause "no two of the millions of explored positions share a hash" is statistical and only explored.) *)
-Theorem C08_bracket_preserves_partial : forall (hf : N -> N -> N -> N) (base : N) n b hs' st' i,
+(* Vocabulary: pos_ok (Preserve1.v) is the invariant of positions that tak.New establishes and every successful move
+   preserves (C01_new_ok, C01_move_exact, C01_replay_refines in Properties/C01.v): board_ok + byte reserves + canonical
+   stack words + no bitboard bit outside the board + hash = fnvBasis xor XOR_i hash_at i.  mv is the repaired
+   MovePreallocated with the real per-square hash hsq; replay folds it over raw moves; new_pos is tak.New.
+   hash_good p := hash p = fnvBasis xor XOR over all squares of hash_at;  same_side p q := same side to move. *)
+
+(* The core of the incremental hash, for ANY per-square hash function hf and any base value: the bracket
+   h ^= hashAt(i); <mutate Height/Stacks of square i only>; h ^= hashAt(i)  keeps  hash = base xor XOR_i hash_at i. *)
+Theorem C08_bracket_preserves : forall (hf : N -> N -> N -> N) (base : N) n b hs' st' i,
   (N.to_nat i < n)%nat -> hash_inv hf base n b ->
   (forall j, (j < n)%nat -> j <> N.to_nat i ->
      nthN hs' (N.of_nat j) = nthN (bhs b) (N.of_nat j) /\ nthN st' (N.of_nat j) = nthN (bst b) (N.of_nat j)) ->
   N.lxor (N.lxor (bh b) (hash_at hf (bhs b) (bst b) i)) (hash_at hf hs' st' i) = N.lxor base (hsum hf hs' st' n).
 Proof. exact bracket_preserves. Qed.
-Print Assumptions C08_bracket_preserves_partial.
+Print Assumptions C08_bracket_preserves.
+
+(* INVARIANT OF MOVES: through the whole of MovePreallocated (origin bracket, every drop bracket, placements).
+   No hypothesis on the heights of the result. *)
+Theorem C08_hash_invariant_move : forall p m p', pos_ok p -> mT m <> 1%N -> mv p m = Ok p' -> hash_good p'.
+Proof. exact hash_invariant_move. Qed.
+Print Assumptions C08_hash_invariant_move.
+
+(* the incremental hash equals the from-scratch value (GameOver.scratch_hash = what FromSquares computes) *)
+Theorem C08_scratch_hash_ok : forall p, pos_ok p -> scratch_hash gen_basis p = hash p.
+Proof. exact scratch_hash_ok. Qed.
+Print Assumptions C08_scratch_hash_ok.
+
+Theorem C08_scratch_hash_move : forall p m p', pos_ok p -> mT m <> 1%N -> mv p m = Ok p' -> scratch_hash gen_basis p' = hash p'.
+Proof. exact scratch_hash_move. Qed.
+Print Assumptions C08_scratch_hash_move.
+
+Corollary C08_scratch_hash_reachable : forall sz bwt stones caps ms p,
+  (3 <= sz <= 8)%N -> (2 * (stones + caps) <= 64)%N -> no_pass ms ->
+  replay (new_pos sz bwt stones caps) ms = Ok p -> scratch_hash gen_basis p = hash p.
+Proof. exact scratch_hash_reachable. Qed.
+Print Assumptions C08_scratch_hash_reachable.
+
+(* CANONICAL REPRESENTATION: the same squares are represented by the same words. *)
+Theorem C08_representation_canonical : forall p q, pos_ok p -> pos_ok q -> size p = size q -> sq (abs p) = sq (abs q) ->
+  White p = White q /\ Move.Black p = Move.Black q /\ Standing p = Standing q /\ Caps p = Caps q /\
+  Height p = Height q /\ Stacks p = Stacks q /\ hash p = hash q.
+Proof. exact representation_canonical. Qed.
+Print Assumptions C08_representation_canonical.
+
+(* Position.Equal is sound ... *)
+Theorem C08_equal_sound : forall p q, pos_ok p -> pos_ok q -> equal p q = true ->
+  size p = size q /\ sq (abs p) = sq (abs q) /\ same_side p q /\ Rules.to_move (abs p) = Rules.to_move (abs q).
+Proof. exact equal_sound. Qed.
+Print Assumptions C08_equal_sound.
+
+(* ... and complete, and Hash() then agrees: reserves, ply, tie-break flag and history do not matter *)
+Theorem C08_equal_complete : forall p q, pos_ok p -> pos_ok q -> size p = size q -> sq (abs p) = sq (abs q) -> same_side p q ->
+  equal p q = true /\ hash_of p = hash_of q.
+Proof. exact equal_complete. Qed.
+Print Assumptions C08_equal_complete.
+
+(* path independence from tak.New (games of at most 64 pieces: sizes 3..6 with the default counts) *)
+Corollary C08_equal_hash_path_independent : forall sz bwt stones caps ms1 ms2 p q,
+  (3 <= sz <= 8)%N -> (2 * (stones + caps) <= 64)%N -> no_pass ms1 -> no_pass ms2 ->
+  replay (new_pos sz bwt stones caps) ms1 = Ok p -> replay (new_pos sz bwt stones caps) ms2 = Ok q ->
+  sq (abs p) = sq (abs q) -> same_side p q ->
+  equal p q = true /\ hash_of p = hash_of q /\ hash p = hash q.
+Proof. exact equal_hash_path_independent. Qed.
+Print Assumptions C08_equal_hash_path_independent.
+
+(* NON-VACUITY: two different move orders (a transposition on 5x5 with a wall and a capstone) satisfy every hypothesis *)
+Theorem C08_nonvacuous_transposition : ms_a <> ms_b /\ replay start5 ms_a = Ok pa /\ replay start5 ms_b = Ok pb /\
+  pos_ok pa /\ pos_ok pb /\ size pa = size pb /\ sq (abs pa) = sq (abs pb) /\ same_side pa pb /\
+  equal pa pb = true /\ hash_of pa = hash_of pb.
+Proof. exact ex_transposition. Qed.
+Print Assumptions C08_nonvacuous_transposition.
+
+(* NOT PROVED (and not provable): "no two of the millions of explored positions share a hash" is a statistical
+   statement about a 64-bit mixer; the harness runs a census on the implementation (exploration, not proof). *)
